@@ -1352,6 +1352,78 @@ func C02(c *Ctx) {
 			appended := m.recordedCopy(mp, 0)
 			c.R.Check(appended, "C02-R2", key+" recorded", c.pos(in), "the reduced copy is what is recorded for this alternative", "the reduced copy is not recorded with the success")
 		})
+		// the consumption folded into the copy: no delete at all, the map made in this iteration is filled from the
+		// ranged map under `key != the key of this iteration`. The copy is private by construction; what remains
+		// to be shown is that it leaves out exactly this iteration's element and that it is recorded.
+		ssau.Instrs(f, func(in ssa.Instruction) {
+			mk, ok := in.(*ssa.MakeMap)
+			if !ok {
+				return
+			}
+			mt, isMap := mk.Type().Underlying().(*types.Map)
+			if !isMap {
+				return
+			}
+			if bk, isBasic := mt.Key().Underlying().(*types.Basic); !isBasic || bk.Info()&types.IsInteger == 0 {
+				return
+			}
+			L := flow.InnermostLoop(loops, mk.Block())
+			if L == nil {
+				return
+			}
+			op, kL := loopOperand(L), rangeKey(L)
+			if op == nil || kL == nil {
+				return
+			}
+			if _, opMap := op.Type().Underlying().(*types.Map); !opMap {
+				return
+			}
+			filtered, unfiltered := 0, 0
+			var at ssa.Instruction
+			for _, r := range ssau.Referrers(mk) {
+				mu, isMU := r.(*ssa.MapUpdate)
+				if !isMU || mu.Map != ssa.Value(mk) {
+					continue
+				}
+				l2 := flow.InnermostLoop(loops, mu.Block())
+				if l2 == nil || l2 == L || !L.Blocks[l2.Header] || loopOperand(l2) != op || rangeKey(l2) == nil || mu.Key != rangeKey(l2) {
+					unfiltered++
+					continue
+				}
+				k2 := rangeKey(l2)
+				skip := false
+				for _, fa := range flow.FactsAt(mu.Block()) {
+					bo, isBO := fa.Cond.(*ssa.BinOp)
+					if !isBO || !((bo.X == k2 && bo.Y == kL) || (bo.X == kL && bo.Y == k2)) {
+						continue
+					}
+					if (bo.Op == token.NEQ && fa.True) || (bo.Op == token.EQL && !fa.True) {
+						skip = true
+					}
+				}
+				if skip {
+					filtered++
+					at = mu
+				} else {
+					unfiltered++
+				}
+			}
+			if filtered == 0 || unfiltered > 0 {
+				return
+			}
+			// a delete on the same map was counted above
+			for _, r := range ssau.Referrers(mk) {
+				if ci, isCI := r.(ssa.CallInstruction); isCI {
+					if b, isB := ci.Common().Value.(*ssa.Builtin); isB && b.Name() == "delete" {
+						return
+					}
+				}
+			}
+			n2++
+			key := fmt.Sprintf("%s: consume element #%d", fname(f), n2)
+			c.R.Discharge("C02-R2", key, c.pos(at), "the copy of the ranged map made in this iteration leaves out the element of this iteration")
+			c.R.Check(m.recordedCopy(mk, 0), "C02-R2", key+" recorded", c.pos(at), "the reduced copy is what is recorded for this alternative", "the reduced copy is not recorded with the success")
+		})
 	}
 	// ---- R3
 	if mapcat := c.fn("match", "Matcher", "mapcatMatch"); mapcat != nil {
@@ -1832,4 +1904,21 @@ func c01Predicates(c *Ctx) {
 		ok := trueImplies(h, 0, hasPrefix)
 		c.R.Check(ok, "C01-R9", pr.name+": true only for a string that starts with "+fmt.Sprintf("%q", pr.prefix), c.P.Pos(h.Pos()), "every way to answer true lies under strings.HasPrefix(s, "+fmt.Sprintf("%q", pr.prefix)+") (or the same test spelled out)", pr.name+" can answer true for a string that does not start with "+fmt.Sprintf("%q", pr.prefix)+": the matcher then treats a constant as a variable (binds it, or skips it when its key is missing)")
 	}
+}
+
+// rangeKey: the key (index) value of a range loop over a map, string or channel: the first component of the
+// header's next instruction.
+func rangeKey(l *flow.Loop) ssa.Value {
+	for _, in := range l.Header.Instrs {
+		nx, ok := in.(*ssa.Next)
+		if !ok {
+			continue
+		}
+		for _, r := range ssau.Referrers(nx) {
+			if ex, isEx := r.(*ssa.Extract); isEx && ex.Index == 1 {
+				return ex
+			}
+		}
+	}
+	return nil
 }
